@@ -158,6 +158,80 @@ def spec_create_context(ck):
     ck.absorb(ex, 'GlobalState::create_context', [o for o, _ in outs])
 
 
+def spec_timeouts_section(ck):
+    """the `timeouts:` section of the configuration as the (serde-derived, but part of the build and of the MIR) reader sees it:
+    any <= 2 keys out of idle / udp / something else, in any order -- a key that is given has its value, a key that is NOT given
+    has the documented default of 600 s (0 would silently switch idle closing off for that class of tunnels)."""
+    cands = [f for f in ck.db.fns if re.search(r'::visit_map$', f.name) and 'config' in f.name and re.search(r'Result<(?:config::)?Timeouts,', f.ret or '')]
+    label = 'C13/config/a-timeout-that-is-not-configured-is-the-documented-default'
+    if len(cands) != 1:
+        ck.add(label, 'undecided', 'anchor_missing: the reader of the timeouts section (%d candidates)' % len(cands))
+        return
+    fn = ck.target(cands[0])
+    fields = ck.si.structs.get('Timeouts', ['idle', 'udp'])
+    res = ck.si.enums['Result']
+    reached = 0
+    for nkeys in (0, 1, 2):
+        ex = ck.engine(loop_bound=5, call_depth=6)
+        ex.benign_havoc = harness.IRRELEVANT
+        st = State()
+        keys = [z3.BitVec('key%d' % i, 64) for i in range(nkeys)]
+        vals = [z3.BitVec('value%d' % i, 64) for i in range(nkeys)]
+        for k in keys:
+            ex.assume(st, z3.ULE(k, BV(len(fields), 64)))          # one of the struct's fields, or an unknown key
+        if nkeys == 2:
+            ex.assume(st, z3.Or(keys[0] != keys[1], keys[0] == BV(len(fields), 64)))     # a repeated known key is an error of its own
+
+        def next_key(ctx):
+            i = ctx.st.env.get('nkey', 0)
+            ctx.st.env['nkey'] = i + 1
+            if i >= nkeys:
+                return Agg('Result', {}, 0, {0: {0: C.mk_option(ctx.ex, None)}}, res)
+            fld = Agg('__Field', {}, keys[i], {}, ['__field%d' % j for j in range(len(fields))] + ['__ignore'])
+            return Agg('Result', {}, 0, {0: {0: C.mk_option(ctx.ex, fld)}}, res)
+
+        def next_value(ctx):
+            i = ctx.st.env.get('nkey', 1) - 1
+            if 'IgnoredAny' in ctx.callee:
+                return Agg('Result', {}, 0, {0: {0: Opaque('IgnoredAny', 'ignored')}}, res)
+            return Agg('Result', {}, 0, {0: {0: Int(vals[i], 64, False)}}, res)
+        ex.overrides.append((re.compile(r'MapAccess<.*>>::next_key::<'), next_key))
+        ex.overrides.append((re.compile(r'MapAccess<.*>>::next_value::<'), next_value))
+        ex.inputs = dict([('key%d' % i, keys[i]) for i in range(nkeys)] + [('value%d' % i, vals[i]) for i in range(nkeys)])
+        outs = ex.call_fn(st, fn, [Opaque('__Visitor', 'visitor'), Opaque('__A', 'map')])
+        for o in outs:
+            if o.status != 'returned' or not isinstance(o.ret, Agg):
+                continue
+            ok, t = _ok_payload(o.ret)
+            if not isinstance(t, Agg):
+                continue
+            reached += 1
+            for fi, fname in enumerate(fields):
+                got = t.fields.get(fi)
+                if not isinstance(got, Int):
+                    ex.prove(o, label, z3.Not(ok))
+                    continue
+                exp = BV(600, 64)
+                for i in range(nkeys - 1, -1, -1):
+                    exp = z3.If(keys[i] == BV(fi, 64), vals[i], exp)
+                ex.prove(o, label, z3.Implies(ok, got.t == exp))
+        for f in ex.findings:
+            if not hasattr(f, 'target'):
+                f.target = 'timeouts section'
+        ck.absorb(ex, 'Timeouts::deserialize (visit_map, %d keys)' % nkeys, outs)
+    if not reached:
+        ck.add('C13/config/reachability', 'vacuous', 'the reader of the timeouts section never returned Ok in the model')
+    ck.plans.append(_timeouts_replay_plan)
+    ck.bounds['timeouts-section'] = 'a timeouts section with 0..2 keys (idle, udp or an unknown one) in any order, any u64 values'
+
+
+def _timeouts_replay_plan(ob):
+    if (ob.target or '') != 'timeouts section' or not ob.label.startswith('C13/config/'):
+        return None
+    cases = [{'driver': 'timeouts', 'args': {'yaml': y}} for y in ('idle: 30', 'udp: 30', '{}', 'other: 1')]
+    return 'loaders', cases, lambda o: o.get('parsed') is True and (o.get('idle_given') is False and o.get('idle') != 600 or o.get('udp_given') is False and o.get('udp') != 600)
+
+
 def spec_main_wiring(ck):
     """start-up: the configured timeouts.idle must be what new connections inherit"""
     body = ck.find(lambda: ck.db.free('main', closure='{closure#0}'), 'main (async body)')
